@@ -12,6 +12,7 @@
 #include <algorithm>
 
 #include "ompshim.hpp"
+#include <ucontext.h>
 extern "C" char __data_start, _end;
 
 namespace shim
@@ -99,11 +100,139 @@ extern "C"
     void omp_set_dynamic(int) {}
     int omp_in_parallel(void) { return shim::in_parallel; }
 
+    // ---- team members as coroutines: one runs at a time, in the order given by the case; a member runs until it
+    // finishes or reaches a barrier; when every unfinished member waits at the barrier the next phase starts.
+    // Each (phase, member) slice is bracketed by snapshots, so conflicts are judged between barriers.
+    struct Member
+    {
+        ucontext_t ctx;
+        std::vector<uint8_t> stack;
+        bool started = false, done = false, at_barrier = false;
+        int singles = 0; // number of `single` constructs encountered so far
+    };
+    // all scheduler state lives in one object so that the static-data snapshot can skip it
+    struct Sched
+    {
+        ucontext_t sched_ctx;
+        std::vector<Member> *team = nullptr;
+        void (*team_fn)(void *) = nullptr;
+        void *team_data = nullptr;
+        int singles_won = 0;
+        long dyn_next = 0, dyn_end = 0, dyn_incr = 1, dyn_chunk = 1; // one shared dynamic loop at a time
+        bool dyn_inited = false;
+    };
+    static Sched G;
+#define sched_ctx G.sched_ctx
+#define team G.team
+#define team_fn G.team_fn
+#define team_data G.team_data
+#define singles_won G.singles_won
+#define dyn_next G.dyn_next
+#define dyn_end G.dyn_end
+#define dyn_incr G.dyn_incr
+#define dyn_chunk G.dyn_chunk
+#define dyn_inited G.dyn_inited
+
+    static void member_entry()
+    {
+        team_fn(team_data);
+        (*team)[shim::cur_tid].done = true;
+        swapcontext(&(*team)[shim::cur_tid].ctx, &sched_ctx);
+    }
+
+    void GOMP_barrier(void)
+    {
+        if (!shim::in_parallel || !team)
+            return;
+        Member &m = (*team)[shim::cur_tid];
+        m.at_barrier = true;
+        swapcontext(&m.ctx, &sched_ctx);
+    }
+    bool GOMP_single_start(void)
+    {
+        if (!shim::in_parallel || !team)
+            return true;
+        Member &m = (*team)[shim::cur_tid];
+        m.singles++;
+        if (m.singles > singles_won)
+        {
+            singles_won = m.singles;
+            return true;
+        }
+        return false;
+    }
+    void GOMP_critical_start(void) {}
+    void GOMP_critical_end(void) {}
+    void GOMP_atomic_start(void) {}
+    void GOMP_atomic_end(void) {}
+    void GOMP_critical_name_start(void **) {}
+    void GOMP_critical_name_end(void **) {}
+    // dynamic / guided loops: chunks are handed out on demand, i.e. to whichever member the order lets run first
+    static bool dyn_take(long *istart, long *iend)
+    {
+        if ((dyn_incr > 0 && dyn_next >= dyn_end) || (dyn_incr < 0 && dyn_next <= dyn_end))
+            return false;
+        long s0 = dyn_next, e0 = s0 + dyn_chunk * dyn_incr;
+        if ((dyn_incr > 0 && e0 > dyn_end) || (dyn_incr < 0 && e0 < dyn_end))
+            e0 = dyn_end;
+        dyn_next = e0;
+        *istart = s0;
+        *iend = e0;
+        return true;
+    }
+    static bool dyn_start(long start, long end, long incr, long chunk, long *istart, long *iend)
+    {
+        if (!dyn_inited)
+        {
+            dyn_next = start;
+            dyn_end = end;
+            dyn_incr = incr ? incr : 1;
+            dyn_chunk = chunk > 0 ? chunk : 1;
+            dyn_inited = true;
+        }
+        return dyn_take(istart, iend);
+    }
+    bool GOMP_loop_dynamic_start(long s0, long e0, long inc, long ch, long *is, long *ie) { return dyn_start(s0, e0, inc, ch, is, ie); }
+    bool GOMP_loop_nonmonotonic_dynamic_start(long s0, long e0, long inc, long ch, long *is, long *ie) { return dyn_start(s0, e0, inc, ch, is, ie); }
+    bool GOMP_loop_guided_start(long s0, long e0, long inc, long ch, long *is, long *ie) { return dyn_start(s0, e0, inc, ch, is, ie); }
+    bool GOMP_loop_nonmonotonic_guided_start(long s0, long e0, long inc, long ch, long *is, long *ie) { return dyn_start(s0, e0, inc, ch, is, ie); }
+    bool GOMP_loop_dynamic_next(long *is, long *ie) { return dyn_take(is, ie); }
+    bool GOMP_loop_nonmonotonic_dynamic_next(long *is, long *ie) { return dyn_take(is, ie); }
+    bool GOMP_loop_guided_next(long *is, long *ie) { return dyn_take(is, ie); }
+    bool GOMP_loop_nonmonotonic_guided_next(long *is, long *ie) { return dyn_take(is, ie); }
+    bool GOMP_loop_ull_dynamic_start(bool, unsigned long long s0, unsigned long long e0, unsigned long long inc, unsigned long long ch, unsigned long long *is, unsigned long long *ie)
+    {
+        long a, b2;
+        bool r = dyn_start((long)s0, (long)e0, (long)inc, (long)ch, &a, &b2);
+        *is = (unsigned long long)a;
+        *ie = (unsigned long long)b2;
+        return r;
+    }
+    bool GOMP_loop_ull_nonmonotonic_dynamic_start(bool u, unsigned long long s0, unsigned long long e0, unsigned long long inc, unsigned long long ch, unsigned long long *is, unsigned long long *ie) { return GOMP_loop_ull_dynamic_start(u, s0, e0, inc, ch, is, ie); }
+    bool GOMP_loop_ull_dynamic_next(unsigned long long *is, unsigned long long *ie)
+    {
+        long a, b2;
+        bool r = dyn_take(&a, &b2);
+        *is = (unsigned long long)a;
+        *ie = (unsigned long long)b2;
+        return r;
+    }
+    bool GOMP_loop_ull_nonmonotonic_dynamic_next(unsigned long long *is, unsigned long long *ie) { return GOMP_loop_ull_dynamic_next(is, ie); }
+    void GOMP_loop_end(void) { GOMP_barrier(); }
+    void GOMP_loop_end_nowait(void) {}
+    int omp_get_num_procs(void) { return shim::max_threads; }
+    int omp_get_thread_limit(void) { return 1 << 20; }
+    int omp_get_level(void) { return shim::in_parallel ? 1 : 0; }
+    void omp_set_nested(int) {}
+    void omp_set_max_active_levels(int) {}
+    int omp_get_dynamic(void) { return 0; }
+    double omp_get_wtime(void) { return 0.0; }
+
     void GOMP_parallel(void (*fn)(void *), void *data, unsigned num_threads, unsigned /*flags*/)
     {
         using namespace shim;
         if (in_parallel)
-        { // nested region: team of one
+        { // nested region: team of one, run inline on the encountering member
             fn(data);
             return;
         }
@@ -114,71 +243,101 @@ extern "C"
         if (T < 1)
             T = 1;
         std::vector<int> order = member_order((int)T);
-        RegionLog rl;
-        rl.requested = requested;
-        rl.delivered = T;
         // stack of the callers: from this frame upwards
         uint8_t *sp = (uint8_t *)__builtin_frame_address(0);
         size_t stack_n = 24 * 1024;
         if (stack_top && sp + 16 + stack_n > stack_top)
             stack_n = stack_top > sp + 16 ? (size_t)(stack_top - (sp + 16)) : 0;
         size_t static_n = (size_t)(&_end - &__data_start);
+        busy = true;
+        std::vector<Member> members(T);
+        for (auto &m : members)
+            m.stack.resize(1 << 20);
+        busy = false;
+        team = &members;
+        team_fn = fn;
+        team_data = data;
+        singles_won = 0;
+        dyn_inited = false;
         in_parallel = true;
         cur_team = (int)T;
-        for (int m : order)
+        bool progress = true;
+        while (progress)
         {
-            cur_tid = m;
-            std::vector<std::vector<uint8_t>> snaps;
-            std::vector<uint8_t> snap_stack, snap_static;
-            std::vector<Region> regs;
-            if (recording)
+            progress = false;
+            RegionLog rl;
+            rl.requested = requested;
+            rl.delivered = T;
+            for (auto &m : members)
+                m.at_barrier = false;
+            for (int mi : order)
             {
-                busy = true;
-                regs = regions;
-                for (auto &r : regs)
-                    snaps.emplace_back(r.p, r.p + r.n);
-                snap_static.assign((uint8_t *)&__data_start, (uint8_t *)&__data_start + static_n);
-                snap_stack.assign(sp + 16, sp + 16 + stack_n);
-                busy = false;
-            }
-            fn(data);
-            if (recording)
-            {
-                busy = true;
-                MemberLog ml;
-                ml.tid = m;
-                if (rl.bufnames.empty())
+                Member &m = members[mi];
+                if (m.done)
+                    continue;
+                progress = true;
+                cur_tid = mi;
+                std::vector<std::vector<uint8_t>> snaps;
+                std::vector<uint8_t> snap_stack, snap_static;
+                std::vector<Region> regs;
+                if (recording)
                 {
+                    busy = true;
+                    regs = regions;
                     for (auto &r : regs)
-                        rl.bufnames.push_back(r.name);
-                    rl.bufnames.push_back("caller-stack");
-                    rl.bufnames.push_back("static-data");
+                        snaps.emplace_back(r.p, r.p + r.n);
+                    snap_static.assign((uint8_t *)&__data_start, (uint8_t *)&__data_start + static_n);
+                    snap_stack.assign(sp + 16, sp + 16 + stack_n);
+                    busy = false;
                 }
-                for (size_t i = 0; i < regs.size(); i++)
-                    diff(snaps[i], regs[i].p, regs[i].n, (int)i, ml.writes, 8);
-                diff(snap_stack, sp + 16, stack_n, (int)regs.size(), ml.writes, 8);
-                // static data: ignore the shim's / harness's own bookkeeping by only looking at library-visible changes:
-                // the harness does not touch globals while a member runs, so any change is the member's.
+                if (!m.started)
                 {
-                    std::vector<Interval> st;
-                    diff(snap_static, (uint8_t *)&__data_start, static_n, (int)regs.size() + 1, st, 8);
-                    // the shim's own cur_tid etc. are not modified during fn(); keep everything
-                    for (auto &iv : st)
-                        ml.writes.push_back(iv);
+                    m.started = true;
+                    getcontext(&m.ctx);
+                    m.ctx.uc_stack.ss_sp = m.stack.data();
+                    m.ctx.uc_stack.ss_size = m.stack.size();
+                    m.ctx.uc_link = &sched_ctx;
+                    makecontext(&m.ctx, (void (*)())member_entry, 0);
                 }
-                rl.members.push_back(std::move(ml));
+                swapcontext(&sched_ctx, &m.ctx); // runs the member until it finishes or waits at a barrier
+                if (recording)
+                {
+                    busy = true;
+                    MemberLog ml;
+                    ml.tid = mi;
+                    if (rl.bufnames.empty())
+                    {
+                        for (auto &r : regs)
+                            rl.bufnames.push_back(r.name);
+                        rl.bufnames.push_back("caller-stack");
+                        rl.bufnames.push_back("static-data");
+                    }
+                    for (size_t i = 0; i < regs.size(); i++)
+                        diff(snaps[i], regs[i].p, regs[i].n, (int)i, ml.writes, 8);
+                    diff(snap_stack, sp + 16, stack_n, (int)regs.size(), ml.writes, 8);
+                    {
+                        // the scheduler's own state changes across a context switch: not a member write
+                        size_t goff = (size_t)((uint8_t *)&G - (uint8_t *)&__data_start);
+                        if (goff + sizeof(G) <= static_n)
+                            memcpy(&snap_static[goff], &G, sizeof(G));
+                        diff(snap_static, (uint8_t *)&__data_start, static_n, (int)regs.size() + 1, ml.writes, 8);
+                    }
+                    rl.members.push_back(std::move(ml));
+                    busy = false;
+                }
+            }
+            if (recording && !rl.members.empty())
+            {
+                busy = true;
+                rl.delivered = (unsigned)rl.members.size() > T ? T : rl.delivered;
+                log.push_back(std::move(rl));
                 busy = false;
             }
         }
         in_parallel = false;
         cur_tid = 0;
         cur_team = 1;
-        if (recording)
-        {
-            busy = true;
-            log.push_back(std::move(rl));
-            busy = false;
-        }
+        team = nullptr;
     }
 
     // library-side malloc/free are routed here by -Wl,--wrap=malloc,--wrap=free so that blocks allocated during a
